@@ -27,6 +27,27 @@ Example C17_optional_nonvacuous :
     ([Live None; Live (Some 7); Dead], [RUnit; RUnit; RUnit; RUnit; RSkip; RUnit; RUnit; RVal 7; RAssert]).
 Proof. vm_compute. split; reflexivity. Qed.
 
+(* Throwing element constructors.  The element's converting constructor throws on the designated argument
+   [throw_magic] (output [RThrow], the run goes on): the theorems above/below cover optional::emplace and
+   optional(U&&), variant::emplace, manual_box::initialize / construct_with on that argument -- the reference says what
+   std::optional::emplace specifies ("if the constructor throws, *this does not contain a value"; for variant: the
+   destroy-then-construct order leaves it holding nothing, std: valueless_by_exception, here: empty; manual_box stays
+   uninitialized; a throwing optional(U&&) creates no optional).  Intended semantics of the remaining throwing paths
+   (copy/move/converting assignment into engaged and disengaged targets, variant assignment with a different
+   alternative, expected's assignments and constructors), carried by the harness oracle only
+   (comp/holders/throw_part.hpp, a fault at every element construction/assignment point): a holder reports a value /
+   an alternative if and only if an element object is alive in its storage, nothing is destroyed twice or leaked;
+   optional's state equals std::optional's under the same fault; variant is unchanged or empty after a throw.
+   expected does not meet this (recorded: D60). *)
+Example C17_throwing_emplace_nonvacuous :
+  snd (fst (orun KFull (ovars0 1) [ONewConv 0 5; OEmplace 0 throw_magic; OHas 0; OEmplace 0 7; OGet 0])) =
+    [RUnit; RThrow; RBool false; RUnit; RVal 7] /\
+  snd (orun KFull (ovars0 1) [ONewConv 0 5; OEmplace 0 throw_magic]) = [EConstruct (sv 0); EDestroy (sv 0)] /\
+  snd (fst (vrun 3 KFull (vvars0 1) [VNewVal 0 1 5; VEmplace 0 2 throw_magic; VTag 0])) = [RUnit; RThrow; RNone] /\
+  snd (fst (brun (bvars0 1) [BNew 0; BInit 0 throw_magic; BValid 0; BInit 0 4])) = [RUnit; RThrow; RBool false; RUnit] /\
+  snd (fst (orun KFull (ovars0 1) [ONewConv 0 throw_magic; ONew 0])) = [RThrow; RUnit].
+Proof. vm_compute. repeat split; reflexivity. Qed.
+
 (* expected<E, T>: error state/code and held value equal the reference on the sum type N + N
    (inl = error code, inr = value), for construction, copy/move construction, copy/move assignment
    (incl. self-assignment), accessors, unwrap, map, map_error. *)
